@@ -1182,10 +1182,10 @@ Qed.
 Local Open Scope N_scope.
 
 Lemma fix44_wf : wf_schema GenSchema.FIX44.schema = true.
-Proof. vm_compute. reflexivity. Qed.
+Proof. vm_cast_no_check (eq_refl true). Qed.
 
 Lemma tt_wf : wf_schema GenSchema.TT.schema = true.
-Proof. vm_compute. reflexivity. Qed.
+Proof. vm_cast_no_check (eq_refl true). Qed.
 
 Definition T (n : N) : str := n_to_dec n.
 Definition accept_all : field -> str -> option exc := fun _ _ => None.
